@@ -180,6 +180,21 @@ def build(P):
                 cases.append(Case(id="C01-first-%d-%d" % (i, j), prog=("\n".join(L) + "\n").encode(), meta=dict(units=["first/%d/%d" % (i, j)])))
         for ch in chunks(cases, 300):
             yield ("first-assignment", ch)
+        # (f) literals at and beyond every numeric limit, in each position of each literal form (date d/m/y components, integer, real mantissa / exponent, record addresses, array bounds, CHR / SEEK arguments), file mode and REPL
+        bigs = ["0", "00000000000000000000000001", "255", "256", "32767", "32768", "65535", "65536", "4294967295", "4294967296", "9223372036854775807", "9223372036854775808", "18446744073709551615", "18446744073709551616",
+                "99999999999999999999", "123456789012345678901234567890", "9" * 60]
+        lits = []
+        for b in bigs:
+            lits += ["%s/1/2020" % b, "1/%s/2020" % b, "1/1/%s" % b, "%s/%s/%s" % (b, b, b), b, "- " + b, b + ".5", "0." + b, "1e" + b, "1e-" + b, b + "e" + b,
+                     "CHR(%s)" % b, "SETDATE(%s, 1, 2020)" % b, "SETDATE(1, 1, %s)" % b, "RAND(%s)" % b, "MID(\"abc\", %s, 1)" % b, "LEFT(\"abc\", %s)" % b]
+        cases = []
+        for i, l in enumerate(lits):
+            cases.append(Case(id="C01-lit-%d" % i, prog=("OUTPUT \"before\"\nx <- %s\nOUTPUT \"after\"\nOUTPUT x\n" % l).encode(), meta=dict(units=["lit/%d" % i])))
+        for j, b in enumerate(bigs):
+            cases.append(Case(id="C01-litdecl-%d" % j, prog=("DECLARE a : ARRAY[1:%s] OF INTEGER\nOUTPUT \"declared\"\n" % b).encode(), meta=dict(units=["litdecl/%d" % j])))
+            cases.append(Case(id="C01-litseek-%d" % j, prog=("OPENFILE \"s.dat\" FOR RANDOM\nSEEK \"s.dat\", %s\nOUTPUT \"sought\"\n" % b).encode(), meta=dict(units=["litseek/%d" % j])))
+        yield ("literal-limits", cases)
+        yield ("literal-limits-repl", [repl_case("C01-lit-repl-%d" % k, ch, meta=dict(units=ch)) for k, ch in enumerate(chunks(lits, 60))])
 
     SETUP_LINES = []
     for s in SETUP:
